@@ -835,7 +835,7 @@ class World:
     async def op_transfer(self, a, op):
         name = op["on"]
         pipe = self.res[name]
-        total = op["total"]
+        total = math.inf if op["total"] == "inf" else op["total"]
         tp = op.get("tp")
         tp = math.inf if tp == "inf" else tp
         coro = None
@@ -1007,24 +1007,64 @@ class World:
             if op.get("defer"):
                 # `ticker = interval(p)` made now, iterated later: the grid starts with the loop
                 await (time + op["defer"])
-            async for now in source:
-                self.log(a, kind + ".tick", index, now)
-                if index >= len(bodies):
-                    break
-                body = bodies[index]
-                index += 1
-                if isinstance(body, list):
-                    await self.run_ops(a, body)
-                elif body == "postpone":
-                    await instant
-                elif body:
-                    await (time + body)
-                self.log(a, kind + ".bodyend", index - 1)
+            if op.get("split") is not None or op.get("helper"):
+                # the ticker object is stepped by hand: a second loop over the very same object
+                # (`split`: the loop is left after that tick and entered again - what lies between
+                # is a long body run), single steps taken by a child task (`helper`)
+                stepper = source.__aiter__()
+                helpers = set(op.get("helper") or ())
+                while True:
+                    try:
+                        if index in helpers:
+                            now = await self._step_in_child(a, stepper)
+                        else:
+                            now = await stepper.__anext__()
+                    except StopAsyncIteration:
+                        break
+                    self.log(a, kind + ".tick", index, now)
+                    if index >= len(bodies):
+                        break
+                    body = bodies[index]
+                    index += 1
+                    if body == "postpone":
+                        await instant
+                    elif body:
+                        await (time + body)
+                    self.log(a, kind + ".bodyend", index - 1)
+                    if op.get("split") == index:
+                        stepper = source.__aiter__()      # `async for now in ticker:` once more
+            else:
+                async for now in source:
+                    self.log(a, kind + ".tick", index, now)
+                    if index >= len(bodies):
+                        break
+                    body = bodies[index]
+                    index += 1
+                    if isinstance(body, list):
+                        await self.run_ops(a, body)
+                    elif body == "postpone":
+                        await instant
+                    elif body:
+                        await (time + body)
+                    self.log(a, kind + ".bodyend", index - 1)
         except IntervalExceeded:
             self.log(a, kind + ".exceeded", index)
         except ValueError:
             self.log(a, kind + ".valueerror", index)
         self.log(a, kind + "-", index)
+
+    async def _step_in_child(self, a, stepper):
+        """The next tick is awaited by a child task, the owner of the loop waits for that task."""
+        async def step():
+            return await stepper.__anext__()
+        try:
+            async with Scope() as scope:
+                task = scope.do(step())
+                return await task
+        except Concurrent as err:
+            if len(err.children) == 1:
+                raise err.children[0]
+            raise
 
     # -- flow
     def _flow_activity(self, a, spec, tag):
